@@ -51,3 +51,40 @@ func BeforeLock(ctx context.Context, mu *sync.Mutex, point string) {
 	}
 	mu.Unlock()
 }
+
+// --- fine-grained mode ------------------------------------------------------
+// The functions below are only called by copies of the sources that the
+// simulator's rewriter (under /verif) has instrumented: a scheduling point after
+// every statement and around every mutex operation. Nothing in this repository
+// calls them.
+
+// HereHook receives every YieldHere call site that is reached.
+var HereHook func(site string)
+
+// YieldHere is a potential scheduling point identified by its source position.
+func YieldHere(site string) {
+	if h := HereHook; h != nil {
+		h(site)
+	}
+}
+
+// BeforeLockFnHook is called in front of a mutex acquisition with the mutex's
+// TryLock and Unlock methods; it returns once the mutex could be taken (and has
+// been released again), parking the calling task in between if needed.
+var BeforeLockFnHook func(tryLock func() bool, unlock func(), site string)
+
+func BeforeLockFn(tryLock func() bool, unlock func(), site string) {
+	if h := BeforeLockFnHook; h != nil {
+		h(tryLock, unlock, site)
+	}
+}
+
+// HeldHook is told when the calling goroutine has taken (+1) or released (-1) a
+// mutex: a task holding a mutex must not be parked at a YieldHere site.
+var HeldHook func(delta int)
+
+func Held(delta int) {
+	if h := HeldHook; h != nil {
+		h(delta)
+	}
+}
